@@ -145,6 +145,11 @@ const T = {
   genericArrow: (i) => `const ga${i} = <Q,>(p: Q): any => <Comp>{xx}</Comp>;\n__out.k${i} = () => ga${i}(1);`,
   asyncTyped:(i) => `const at${i} = async (p?: number): Promise<any> => <Comp>{f()}</Comp>;\n__out.k${i} = () => typeof at${i}().then;`,
   callDc:    (i) => `defineComponent((props: { q: boolean }) => () => null);\n__out.k${i} = () => 1;`,
+  dcDupAny:  (i) => `interface DP${i} { v: string }\ninterface DP${i} { v: any }\nconst DQ${i} = defineComponent((props: DP${i}) => () => null);\n__out.k${i} = () => 1;`,
+  dcInterUnknown: (i) => `const DU${i} = defineComponent((props: { v: string; w: number } & { v?: unknown; w: boolean }) => () => null);\n__out.k${i} = () => 1;`,
+  dcThreeArgs: (i) => `const DT${i} = defineComponent((props: { a: string }) => () => null, uo, 'extra');\n__out.k${i} = () => 1;`,
+  dcThreeArgsTyped: (i) => `const DV${i} = defineComponent((props: { a: string }, ctx: SetupContext<{ (e: 'x'): void }>) => () => null, uo as any, ...([] as any[]));\n__out.k${i} = () => 1;`,
+  dcShadowParam: (i) => `function sh${i}(defineComponent: any) { const Inner = defineComponent((props: { a: string }) => () => null); return Inner; }\n__out.k${i} = () => typeof sh${i};`,
   exportDc:  (i) => `export const ED${i} = defineComponent((props: { a: string }) => null, { name: 'Own' });\n__out.k${i} = () => 1;`,
 };
 const TS_PRELUDE = "import { defineComponent, SetupContext } from 'vue';\nconst uo = __env.bound;\n";
@@ -156,7 +161,7 @@ function itemSrc(item, i) {
 }
 function itemKey(item) { return item.t ? 'T:' + item.t : item.d ? 'D:' + item.d : `${item.k}∘${item.l}`; }
 const T_JSX = new Set(['dcJsxDefault', 'dcJsxDynDefault', 'dcProps', 'dcEmits', 'typedArrow', 'genericArrow', 'asyncTyped']);
-const T_DC = new Set(['dcProps', 'dcIface', 'dcIdentOpts', 'dcEmits', 'dcDefault', 'dcDynDefault', 'dcSpreadDefault', 'dcOwnPropsDynDefault', 'dcJsxDefault', 'dcJsxDynDefault', 'callDc', 'exportDc']);
+const T_DC = new Set(['dcDupAny', 'dcInterUnknown', 'dcThreeArgs', 'dcThreeArgsTyped', 'dcProps', 'dcIface', 'dcIdentOpts', 'dcEmits', 'dcDefault', 'dcDynDefault', 'dcSpreadDefault', 'dcOwnPropsDynDefault', 'dcJsxDefault', 'dcJsxDynDefault', 'callDc', 'exportDc']);
 function itemHasJsx(item) { return item.t ? T_JSX.has(item.t) : item.d ? !!D[item.d].jsx : true; }
 function itemAugmentable(item) { return !!item.t && T_DC.has(item.t); }
 
